@@ -354,6 +354,30 @@ def chain_roundtrip(led, x, model, fname, key, rep, ops, nontriv, fn="Mps.load",
                       f"object: qn {[np.asarray(q).shape for q in lo.qn]} vs {[np.asarray(q).shape for q in x.qn]}", key + ("v03",), fields, rep, nontriv)
         except Exception as e:
             led.check(False, f"post:{fn}:file_of_protocol_0.3_loads_identically", fn, f"loading a protocol-0.3 file raised {type(e).__name__}: {e}", key + ("v03",), fields, rep, nontriv)
+    # older protocols the loader still accepts: "0.2" keeps the prefactor as the last entry of `tdh_wfns` (no `coeff` entry), "0.1" has no prefactor at all (documented:
+    # it is lost, the state comes back with prefactor 1) and calls the direction flag `left`
+    if ver == "0.4" and cls.__name__ in ("Mps", "MpDm"):
+        for old_ver in ("0.2", "0.1"):
+            try:
+                raw = dict(np.load(fname, allow_pickle=True))
+                raw = {k_: v_ for k_, v_ in raw.items() if not k_.startswith("subqn_") and k_ != "coeff"}
+                raw["version"] = old_ver
+                if old_ver == "0.2":
+                    raw["tdh_wfns"] = np.array([x.coeff])
+                else:
+                    raw["left"] = raw.pop("to_right")
+                old_name = fname[:-4] + f".v{old_ver.replace('.', '')}.npz"
+                np.savez(old_name, **raw)
+                lo = cls.load(model, old_name)
+                os.remove(old_name)
+                want_c = complex(x.coeff) if old_ver == "0.2" else 1.0
+                same = (len(lo) == n and all(bits(lo[i].array, x[i].array) for i in range(n)) and qn_equal(lo.qn, x.qn) and int(lo.qnidx) == int(x.qnidx)
+                        and np.array_equal(np.asarray(lo.qntot).reshape(-1), np.asarray(x.qntot).reshape(-1)) and bool(lo.to_right) == bool(x.to_right)
+                        and complex(lo.coeff) == want_c)
+                led.check(same, f"post:{fn}:file_of_protocol_{old_ver}_loads_identically", fn, f"a protocol-{old_ver} file of the same data does not come back as the dumped object "
+                          f"(prefactor {lo.coeff!r}, expected {want_c!r}; to_right {lo.to_right} vs {x.to_right})", key + ("v" + old_ver,), fields, rep, nontriv)
+            except Exception as e:
+                led.check(False, f"post:{fn}:file_of_protocol_{old_ver}_loads_identically", fn, f"loading a protocol-{old_ver} file raised {type(e).__name__}: {e}", key + ("v" + old_ver,), fields, rep, nontriv)
     l_before = l.copy()
     later_ops(led, f"post:{fn}:later_op_identical", fn, ops, x, l, key, fields, rep, nontriv, scale)
     d = chain_diff(l_before, l)
@@ -1221,6 +1245,8 @@ def check(run):
             cases.append(("chain", name, n, sd, tier))
         if n >= 2 or tier == "thorough":
             cases.append(("spill", name, n, seed, tier))
+    # ten sites: eleven bonds, the per-bond entries of the file reach two-digit names (subqn_10)
+    cases.append(("chain", "spinqn", 10, seed, tier))
     ns = [1, 2, 3, 5] if tier == "quick" else [1, 2, 3, 4, 5, 6, 7]
     shapes = TREE_SHAPES if tier == "thorough" else ["linear", "binary", "mctdh", "t3ns"]
     for kind in TREE_KINDS:
